@@ -24,6 +24,7 @@ ASSUMPTIONS = [
     "documents of the theorems: every value the reference decoder accepts whose maps (at every depth) have keys of the supported kinds (string, integer, float, double, timestamp 32/64/96), pairwise different under the library's key equality; timestamp 96 is read in the library's field order (known finding F08 of C06/C07)",
     "request keys are passed as std::string, uint64_t, int64_t, float, double or CBinTimestamp; targets are the ReadValue overloads (bool, char, (u)int8..64, nullptr_t, float, double, string_view, CBinTimestamp); container targets of the archive layer (vector, map, tuple, classes) reach the scopes through exactly these calls but are not themselves part of this check (C18/C17 own the archive layer)",
     "after an exception thrown from inside a value (truncated / ill-formed input, invalid timestamp size) the model does not follow the unwinding: the implementation may answer ERR or TERMINATE there (class of known finding F17)",
+    "stream reader (kinds s, S) on ILL-FORMED documents: only the fact that the load fails (exception or terminate) is compared with the model, because the stream reader's position at the throw differs from the string reader's; on every document the reference decoder accepts the comparison is exact",
 ]
 
 DRIVER = "mpscope"
@@ -450,12 +451,32 @@ def expected(line):
     return (ans if sent is not None else None), ev.partial
 
 
-def same(a, b):
-    """implementation answer a against model answer b ('ERR?' = thrown from inside a value: ERR or TERMINATE)"""
+def is_failure(ans):
+    return ans == "TERMINATE" or " ERR " in ans or " ERR? " in ans
+
+
+def illformed(line):
+    t = line.split(" ")
+    data = bytes.fromhex(t[3]) if t[3] != "-" else b""
+    try:
+        M.dec_value(data)
+        return False
+    except M.Bad:
+        return True
+    except RecursionError:
+        return True
+
+
+def same(a, b, line=None):
+    """implementation answer a against model answer b ('ERR?' = thrown from inside a value: ERR or TERMINATE).
+    Stream reader on an ILL-FORMED document: the model is the string reader's, whose position at the
+    throw differs from the stream reader's (which has consumed what it peeked), so only 'fails' is compared"""
     if a == b:
         return True
     if " ERR? " in b:
         return a == "TERMINATE" or a == b.replace(" ERR? ", " ERR ")
+    if line is not None and line.split(" ")[1] in "sS" and is_failure(a) and is_failure(b) and illformed(line):
+        return True
     return False
 
 
@@ -670,10 +691,10 @@ def sentinel(rng):
 
 def gen_wellformed(rng, tier):
     cases = []
-    nperm = 12 if tier == "quick" else 150
-    nrand = 7000 if tier == "quick" else 110000
-    nbig = 1200 if tier == "quick" else 16000
-    narr = 1800 if tier == "quick" else 24000
+    nperm = 12 if tier == "quick" else 300
+    nrand = 7000 if tier == "quick" else 220000
+    nbig = 1200 if tier == "quick" else 32000
+    narr = 1800 if tier == "quick" else 48000
     # all permutations of one request per key, <= 5 keys, plus the same with an absent key in front
     for _ in range(nperm):
         for nk in (1, 2, 3, 4, 5):
@@ -731,7 +752,7 @@ def gen_wellformed(rng, tier):
 
 def gen_malformed(rng, tier):
     """truncated / corrupted documents: outside C03's domain; correspondence (and F17) only"""
-    n = 1500 if tier == "quick" else 24000
+    n = 1500 if tier == "quick" else 48000
     cases = ["hist m SS 81 -", "hist s SS 81 -", "hist m SS 81 G:s61:s32", "hist m TT 82a16105 G:s61:s32", "hist m SS dfffffffff G:s61:s32",
              "hist m SS deffff V", "ahist m SS ddffffffff g:s32", "hist m SS - -", "ahist m SS - e", "hist m SS 81c005 G:s61:s32", "hist m SS 81c105 V"]
     for _ in range(n):
@@ -860,7 +881,7 @@ def run(ctx, vlib):
                 nontrivial += 1
         v, why = judge(line, a)
         verdicts[v] = verdicts.get(v, 0) + 1
-        if same(a, b):
+        if same(a, b, line):
             if v == "FAIL" and len(failing) < 20:
                 # the model mirrors it, yet the independent evaluation rejects it and no listed finding covers it
                 failing.append(dict(driver=DRIVER, case=line, implementation=a, model=b, judge=v, why=why))
@@ -924,4 +945,4 @@ def replay(rp, vlib):
     a = vlib.run_driver(impl, [line], jobs=1)[0]
     b = vlib.run_driver(model, [line], jobs=1)[0]
     v, why = judge(line, a)
-    return dict(case=line, implementation=a, model=b, agree=same(a, b), judge=v, why=why)
+    return dict(case=line, implementation=a, model=b, agree=same(a, b, line), judge=v, why=why)
